@@ -1,6 +1,6 @@
 (* C08_lex.v — C08 (accepted iff documented), TEXT LEVEL: what the tokenizer makes of a text. *)
 From Coq Require Import String NArith ZArith List Bool.
-From BP Require Import TotalBase LexBase Lex LexSpec LexCase LexProofs LexClass LexMunch LexOrigin.
+From BP Require Import TotalBase LexBase Lex LexSpec LexCase LexProofs LexClass LexMunch LexOrigin LexTyped.
 From BPGen Require Import GenLexer.
 Import ListNotations.
 
@@ -47,6 +47,32 @@ Theorem C08_lex_reserved_identifier_is_glued : forall uw s its e rem a t lx b,
   word_opt uw (lastc None (items_text a)) = true \/ word_opt uw (hd_error (items_text b ++ rem)) = true.
 Proof. exact reserved_identifier_is_glued. Qed.
 Print Assumptions C08_lex_reserved_identifier_is_glued.
+
+(* uintN / intN for EVERY N: at word boundaries, `uint` / `int` + a run of digits is matched by t_UINT_TYPE /
+   t_INT_TYPE with the whole run (the greedy [0-9]+ backtracks through shorter runs, none is at a boundary) *)
+Theorem C08_lex_uint_typed : forall uw fuel p d0 ds post,
+  word_opt uw p = false -> word_opt uw (hd_error post) = false ->
+  ok_digit d0 = true -> forallb ok_digit ds = true -> (length (ds ++ post) <= fuel)%nat ->
+  exists r, first_rule uw fuel lex_rules (p, W_uint ++ d0 :: ds ++ post) = Some (r, (lastc (Some d0) ds, post))
+            /\ r_name r = T_UINT_TYPE.
+Proof. exact uint_typed. Qed.
+Print Assumptions C08_lex_uint_typed.
+
+Theorem C08_lex_int_typed : forall uw fuel p d0 ds post,
+  word_opt uw p = false -> word_opt uw (hd_error post) = false ->
+  ok_digit d0 = true -> forallb ok_digit ds = true -> (length (ds ++ post) <= fuel)%nat ->
+  exists r, first_rule uw fuel lex_rules (p, W_int ++ d0 :: ds ++ post) = Some (r, (lastc (Some d0) ds, post))
+            /\ r_name r = T_INT_TYPE.
+Proof. exact int_typed. Qed.
+Print Assumptions C08_lex_int_typed.
+
+Theorem C08_lex_width_identifier_is_glued : forall uw s its e rem a t lx b d0 ds,
+  lex_run uw s = (its, e, rem) -> its = a ++ ITok t lx :: b ->
+  cps_eqb (t_type t) T_IDENTIFIER = true ->
+  (lx = W_uint ++ d0 :: ds \/ lx = W_int ++ d0 :: ds) -> ok_digit d0 = true -> forallb ok_digit ds = true ->
+  word_opt uw (lastc None (items_text a)) = true \/ word_opt uw (hd_error (items_text b ++ rem)) = true.
+Proof. exact width_identifier_is_glued. Qed.
+Print Assumptions C08_lex_width_identifier_is_glued.
 
 (* the 8 keywords never come out as IDENTIFIER (t_IDENTIFIER re-types them), in any context *)
 Theorem C08_lex_keyword_retyped : forall name a lx line ty v l,
@@ -119,7 +145,7 @@ Theorem C08_lex_vocabulary :
 Proof. repeat split. Qed.
 Print Assumptions C08_lex_vocabulary.
 
-(* ---- non-vacuity / worked instances (the general statements behind these — uintN/intN for every N,
+(* ---- non-vacuity / worked instances (the general statements behind these —
    equality with LexSpec.spec_lex on every input, the printer round trip — are evaluated per generated input
    against LexSpec.spec_lex on every run, not proved: partial) -------------------------------- *)
 Definition types_of (s : list N) := map t_type (fst (lex uni_word s)).
